@@ -65,7 +65,7 @@ def make_config(rng, thorough):
         lat, sym, pos, cen = gen.PROTOTYPES[name]
         smat = rng.choice(gen.supercell_matrices(rng, max_det=4 if cen == "P" else 2, count=10))
         n = len(sym) * int(round(np.linalg.det(smat)))
-        if 2 <= n <= (24 if thorough else 16) and int(round(np.linalg.det(smat))) >= 2:
+        if 2 <= n <= (36 if thorough else 16) and int(round(np.linalg.det(smat))) >= 2:
             break
     return dict(
         cell=name, smat=np.array(smat).tolist(), pmat="auto" if cen != "P" else "P",
@@ -116,6 +116,12 @@ def scenario(cfg, with_reference=False):
     warnings.simplefilter("ignore")
     R = {}
     cell, _ = gen.make_cell(cfg["cell"])
+    if cfg.get("atom_order"):
+        # same crystal, atoms listed in another order: translationally equivalent atoms are then interleaved in the
+        # unit cell and in the supercell (s2p_map is not made of contiguous blocks)
+        from phonopy.structure.atoms import PhonopyAtoms
+        o_ = list(cfg["atom_order"])
+        cell = PhonopyAtoms(cell=cell.cell, symbols=[cell.symbols[i] for i in o_], scaled_positions=cell.scaled_positions[o_])
     ph = phonopy.Phonopy(cell, supercell_matrix=cfg["smat"], primitive_matrix=cfg["pmat"], log_level=0,
                          store_dense_svecs=cfg["dense"])
     sv, mu = ph.primitive.get_smallest_vectors()
@@ -433,14 +439,23 @@ def main(run):
                           dict(file=r["file"], line=r["line"], assigns=r.get("body_assigns_locals"), private=r["private"]))
 
     # ---------------- scenarios under capture
-    nscen = 10 if thorough else 2
-    cap = U.Capture(per_kernel=60 if thorough else 14)
+    nscen = 24 if thorough else 2
+    cap = U.Capture(per_kernel=200 if thorough else 14)
     cfgs = []
     results0 = []
     for s in range(nscen):
         cfg = make_config(rng, thorough)
         if s == 0:
             cfg["compact"], cfg["dense"], cfg["nac"] = False, True, "gonze"     # the full-fc reference paths run every time
+            # centred conventional cell whose translationally equivalent atoms are interleaved (Na Cl Na Cl ... / shuffled)
+            cfg["cell"] = rng.choice(["nacl_interleaved", "nacl", "diamond"])
+            cfg["pmat"] = rng.choice(["auto", "F"])
+            cfg["smat"] = rng.choice([[[1, 0, 0], [0, 1, 0], [0, 0, 1]], [[1, 0, 0], [0, 1, 0], [0, 0, 2]]])
+            if cfg["cell"] != "nacl_interleaved":
+                o_ = list(range(8))
+                while o_ == sorted(o_) or all(abs(o_[k] - o_[k + 1]) == 1 for k in range(7)):
+                    rng.shuffle(o_)
+                cfg["atom_order"] = o_
         if s == 1:
             cfg["compact"], cfg["dense"], cfg["nac"] = True, False, "wang"
             # a primitive cell with symmetry-inequivalent atoms: atom_list = p2s_map then has done atoms with index >= len(atom_list)
